@@ -325,12 +325,20 @@ func genSR(r *vproto.Rng, kind string, f frame, lonG, latG float64) string {
 		}
 	}
 	dc := datumClause(r, f)
-	if kind == "krovak" && !f.nodatum {
+	if kind == "krovak" && !f.nodatum && !f.sameEs && r.Intn(2) == 0 {
+		// the usual S-JTSK definitions; the other half keeps the frame's own draw: Krovak on ANY ellipsoid
+		// or datum (+datum=WGS84 / NAD83 / a named datum, +ellps=GRS80 +towgs84=.., a/b, a/rf) — proj4js'
+		// krovak.js computes on Bessel 1841 whatever ellipsoid the definition names (the datum keeps the
+		// named ellipsoid for the shift), and so must the port
 		dc = []string{"+ellps=bessel +towgs84=570.8,85.7,462.8,4.998,1.587,5.261,3.56", "+ellps=bessel +towgs84=589,76,480", "+datum=hermannskogel"}[r.Intn(3)]
 	}
 	b = append(b, dc, pm)
 	if kind != "longlat" && kind != "krovak" {
 		b = append(b, unitsClause(r))
+	}
+	if kind == "krovak" && r.Intn(3) == 0 {
+		// neither side applies a false origin in krovak; both scale by to_meter
+		b = append(b, []string{"+x_0=0 +y_0=0 +units=m", "+units=m", "+x_0=0 +y_0=0"}[r.Intn(3)])
 	}
 	if r.Intn(4) == 0 {
 		b = append(b, "+no_defs")
@@ -630,6 +638,25 @@ func corpus(w *bufio.Writer) {
 	put(trLine([]string{"+proj=longlat +ellps=intl", "+proj=merc +lon_0=10 +lat_ts=40 +x_0=1000 +y_0=-2000 +ellps=intl", "+proj=longlat +ellps=intl"}, 33.3, -44.4))
 	put(trLine([]string{"+proj=longlat +a=6378137 +b=6378137", "+proj=merc +a=6378137 +b=6378137 +lat_ts=0.0 +lon_0=0.0 +x_0=0.0 +y_0=0 +k=1.0 +units=m +nadgrids=@null +no_defs", "+proj=longlat +a=6378137 +b=6378137"}, -71, 42.3))
 	put(trLine([]string{"+proj=longlat +ellps=bessel +towgs84=570.8,85.7,462.8,4.998,1.587,5.261,3.56", "+proj=krovak +lat_0=49.5 +lon_0=24.83333333333333 +k=0.9999 +ellps=bessel +towgs84=570.8,85.7,462.8,4.998,1.587,5.261,3.56", wgs}, 14.4, 50.1))
+	// Krovak on an ellipsoid other than Bessel 1841 (S-JTSK/05-like, "Krovak on ETRS89"): proj4js' krovak.js
+	// hard-codes a and es of Bessel 1841 for the projection while the datum keeps the named ellipsoid
+	kv := "+proj=krovak +lat_0=49.5 +lon_0=24.83333333333333 +k=0.9999 +x_0=0 +y_0=0"
+	for _, d := range []string{"+datum=WGS84", "+datum=NAD83", "+ellps=GRS80", "+ellps=GRS80 +towgs84=0,0,0,0,0,0,1", "+ellps=WGS84 +towgs84=572.213,85.334,461.94,4.9732,1.529,5.2484,3.5378",
+		"+ellps=intl +towgs84=-87,-98,-121", "+a=6378137 +rf=298.257222101 +towgs84=10,-20,30", "+ellps=sphere", "+a=6377397.155 +b=6377397.155", "+ellps=bessel", "+datum=potsdam", "+datum=osgb36"} {
+		g := "+proj=longlat " + d
+		put(trLine([]string{g, kv + " " + d + " +units=m +no_defs", g}, 12.5, 50.9))
+		put(trLine([]string{g, "+proj=krovak " + d, g}, 21.9, 48.6))
+	}
+	put(trLine([]string{wgs, kv + " +datum=NAD83 +units=m +no_defs", "+proj=krovak +ellps=bessel +towgs84=589,76,480", kv + " +datum=WGS84", wgs}, 16.6, 49.2))
+	{
+		l := "trs | " + wgs + " | " + kv + " +ellps=GRS80 | " + kv + " +datum=WGS84 | +proj=utm +zone=33 +ellps=GRS80 +towgs84=0,0,0,0,0,0,1 | " + wgs + " |"
+		for k := 0; k < 10; k++ {
+			l += " " + vproto.F2H(14.4+0.3*float64(k)) + " " + vproto.F2H(50.1-0.1*float64(k))
+		}
+		put(l)
+	}
+	put("trd2" + trLine([]string{wgs, kv + " +ellps=GRS80", wgs}, 14.4, 50.1)[2:])
+	put("trp2" + trLine([]string{wgs, kv + " +datum=NAD83", wgs}, 14.4, 50.1)[2:])
 	// the tables through the exported fields
 	for _, e := range ellipsoids {
 		put("parse | +proj=longlat +ellps=" + e + " +no_defs")
@@ -777,9 +804,6 @@ func gen(seed uint64, tier string) {
 			for {
 				k := projKinds[r.Intn(len(projKinds))]
 				if k == "krovak" && !czech {
-					continue
-				}
-				if k == "krovak" && (f.sameEs || (f.nodatum && f.ellps != "+ellps=bessel")) {
 					continue
 				}
 				if k == "utm" && math.Abs(latG) > 84 {
